@@ -99,6 +99,28 @@ MUTANTS = [
      "                ess = effective_sample_size(samples.log_weights(0.5 * (beta + samples.beta)))\n"),
     ("c18-resume-dup", ["C18"], S + "samplers/smc/base.py",
      "        if store_sample_history and not resumed:", "        if store_sample_history:"),
+    # ---- C16
+    ("c16-weights-not-sliced", ["C16"], S + "samples.py",
+     "                sliced.weights = self.array_to_namespace(self.weights[idx])", "                sliced.weights = self.weights"),
+    ("c16-prior-from-likelihood", ["C16"], S + "samples.py",
+     "            log_prior=self.log_prior[idx]\n            if self.log_prior is not None",
+     "            log_prior=self.log_likelihood[idx]\n            if self.log_prior is not None and self.log_likelihood is not None"),
+    ("c16-concat-prior-reversed", ["C16"], S + "samples.py",
+     "            log_prior=xp.concatenate([s.log_prior for s in samples], axis=0)",
+     "            log_prior=xp.concatenate([s.log_prior for s in samples[::-1]], axis=0)"),
+    ("c16-getitem-forgets-evidence-error", ["C16"], S + "samples.py",
+     "        sliced = super().__getitem__(idx)\n        sliced.log_evidence = self.log_evidence\n        sliced.log_evidence_error = self.log_evidence_error\n\n        if self.log_w is not None:",
+     "        sliced = super().__getitem__(idx)\n        sliced.log_evidence = self.log_evidence\n\n        if self.log_w is not None:"),
+    ("c16-from-dict-sorts-parameters", ["C16", "C13"], S + "samples.py",
+     "            parameters = dictionary.pop(\"parameters\")\n            if parameters is None:\n                parameters = sorted(samples.keys())",
+     "            dictionary.pop(\"parameters\")\n            parameters = sorted(samples.keys())"),
+    ("c16-pickle-drops-beta", ["C16"], S + "samples.py",
+     "        state = self.__dict__.copy()\n        # replace xp (callable) with module name string",
+     "        state = self.__dict__.copy()\n        if state.get(\"beta\") == 0.0:\n            state[\"beta\"] = None\n        # replace xp (callable) with module name string"),
+    ("c16-smc-getitem-beta", ["C16"], S + "samples.py",
+     "        sliced = super().__getitem__(idx)\n        sliced.beta = self.beta\n", "        sliced = super().__getitem__(idx)\n"),
+    ("c16-from-dict-recomputes-evidence", ["C16"], S + "samples.py",
+     "        if getattr(samples, \"log_w\", None) is not None:\n            for key in", "        if False:\n            for key in"),
     # ---- C05
     ("c05-smc-drop-jacobian", ["C05"], S + "samplers/smc/base.py",
      "        ).flatten() + samples.array_to_namespace(log_abs_det_jacobian)\n\n        log_prob = update_at_indices(",
